@@ -669,3 +669,494 @@ def t_const_arith(facts, res, tier):
             if n.get("k") == "mcall" and re.match(r"^(checked|wrapping|saturating|overflowing)_(add|sub|mul|div|rem|neg|shl|shr)$", n["method"]):
                 res.inst("T-CONST-ARITH:%s:%s:%s" % (fn["name"], n["method"], _norm(n)[:40]), True, {"function": fn["name"], "call": expr_text(n)[:80]})
     res.note("%d bare operations on source constants, %d constant operations that cannot overflow (comparisons with literals, shifts by literal counts, bitwise)" % (n_sites, n_safe))
+
+
+# ----------------------------------------------------------------------------- positions handed down the generator
+
+
+@rule("T-POS-FLOW", floor=400,
+      text="in the code generator every argument in a source-position slot (the `pos` / `loc` parameter of asm, syntax_error, compiler_error, warning, "
+           "find_variable and of every generate_* function) is a source position: the caller's own position parameter, the `.pos` of a statement, or the "
+           "position stored with a deferred increment.  A literal position is accepted only for a label / operand-less instruction (which asm cannot "
+           "reject).  Any other usize - an index into the instruction list, a counter, a length - makes the error carry a wrong line")
+def t_pos_flow(facts, res, tier):
+    slots = {}
+    for fn in facts.fns:
+        ps = [p for p in fn["params"] if p.get("name") != "self"]
+        for i, p in enumerate(ps):
+            if p.get("name") in ("pos", "loc") and (p.get("ty") or "").strip() == "usize":
+                slots.setdefault(fn["name"], set()).add(i)
+    if "asm" not in slots or "syntax_error" not in slots:
+        raise AnchorMissing("asm()/syntax_error() no longer take a `pos`/`loc: usize` parameter")
+    # deferred increments: which tuple index holds the position
+    stored = set()
+    for fn in facts.fns:
+        if "/generate/" not in fn["file"]:
+            continue
+        for n, env, doms in scoped(fn):
+            if n.get("k") == "mcall" and n["method"] == "push" and _norm(n["recv"]).endswith("deferred_plusplus") and n.get("args") and n["args"][0].get("k") == "tuple":
+                for i, e in enumerate(n["args"][0]["elems"]):
+                    nm = simple_name(e)
+                    b = env.get(nm) if nm else None
+                    if b is not None and b.src == "param" and nm in ("pos", "loc"):
+                        stored.add(i)
+    n_sites = 0
+    for fn in facts.fns:
+        if "/generate/" not in fn["file"]:
+            continue
+        own = {p.get("name") for p in fn["params"] if p.get("name") in ("pos", "loc") and (p.get("ty") or "").strip() == "usize"}
+        for n, env, doms in scoped(fn):
+            if not (n.get("k") == "mcall" and n["method"] in slots):
+                continue
+            for i in sorted(slots[n["method"]]):
+                if i >= len(n.get("args", [])):
+                    continue
+                a = n["args"][i]
+                n_sites += 1
+                sa = strip(a)
+                nm = simple_name(a)
+                ok = False
+                why = None
+                b = env.get(nm) if nm else None
+                if nm and b is not None and b.src == "param" and nm in own:
+                    ok, why = True, "own position parameter"
+                elif isinstance(sa, dict) and sa.get("k") == "field" and sa["name"] == "pos":
+                    ok, why = True, "position of a statement"
+                elif isinstance(sa, dict) and sa.get("k") == "field" and sa["name"].isdigit() and int(sa["name"]) in stored:
+                    base = simple_name(sa["base"])
+                    bb = env.get(base) if base else None
+                    if bb is not None and bb.scrut is not None and "deferred_plusplus" in _norm(bb.scrut) or (bb is not None and bb.init is not None and "deferred_plusplus" in _norm(bb.init)):
+                        ok, why = True, "position stored with a deferred increment"
+                    elif bb is not None and bb.src == "for":
+                        it = _norm(bb.scrut) if bb.scrut is not None else ""
+                        src = env.get(it)
+                        if "deferred_plusplus" in it or (src is not None and src.init is not None and "deferred_plusplus" in _norm(src.init)):
+                            ok, why = True, "position stored with a deferred increment"
+                elif _int_lit(a) is not None:
+                    opnd = [x for j, x in enumerate(n["args"]) if j != i and isinstance(strip(x), dict) and strip(x).get("k") in ("call", "path") and _norm(x).startswith("ExprType::")]
+                    if n["method"] == "asm" and opnd and re.match(r"^ExprType::(Label\(|Nothing$)", _norm(opnd[0])):
+                        ok, why = True, "literal position with a label / no operand"
+                if ok:
+                    continue
+                key = "T-POS-FLOW:%s:%s:%s" % (fn["name"], n["method"], _norm(a)[:30])
+                res.inst(key, True, {"function": fn["name"], "callee": n["method"], "argument": expr_text(a)[:60]})
+                res.fail(key, facts.where(fn, n), "%s passes `%s` as the source position of %s(): it is not the function's position parameter, a statement's `.pos` or a stored position, so an error raised there is reported on an unrelated line" % (fn["name"], expr_text(a)[:60], n["method"]))
+    res.inst("T-POS-FLOW:sites", True, {"position_arguments_checked": n_sites, "stored_position_index": sorted(stored)})
+    for i in range(n_sites):
+        res.inst("T-POS-FLOW:site#%d" % i, True)
+
+
+# ----------------------------------------------------------------------------- the preprocessor's line counter
+
+
+@rule("T-LINE-COUNT", floor=2,
+      text="the preprocessor's physical-line counter counts lines that exist: in process() every read of a line is the condition `read_line(..)? > 0` "
+           "of a loop or an if, and the region guarded by each such successful read increments `line` exactly once (before reading again); no "
+           "increment lies outside such a region.  A counter that runs ahead of the input puts errors on a line after the last one")
+def t_line_count(facts, res, tier):
+    fn = facts.fn("process", None) if False else None
+    for f in facts.fns:
+        if f["name"] == "process" and f["file"].endswith("/cpp.rs"):
+            fn = f
+    if fn is None:
+        raise AnchorMissing("cpp.rs: process() not found")
+    sc = scoped(fn)
+    reads = [n for n, env, doms in sc if n.get("k") == "mcall" and n["method"] == "read_line"]
+    if not reads:
+        raise AnchorMissing("process() no longer reads lines with read_line")
+
+    def read_guard(cond):
+        """cond is `<..read_line(..)..> > 0` (or `0 < ..`, `!= 0`)"""
+        c = strip(cond)
+        if isinstance(c, dict) and c.get("k") == "binary" and c["op"] in (">", "!=", "<"):
+            l, r = c["l"], c["r"]
+            if c["op"] == "<":
+                l, r = r, l
+            if _int_lit(r) == 0 and any(x.get("k") == "mcall" and x["method"] == "read_line" for x in walk(l)):
+                return [x for x in walk(l) if x.get("k") == "mcall" and x["method"] == "read_line"][0]
+        return None
+
+    guards = {}  # id(read) -> count of increments
+    guarded_reads = set()
+    for n, env, doms in sc:
+        if n.get("k") in ("if", "while"):
+            r = read_guard(n["cond"])
+            if r is not None:
+                guarded_reads.add(id(r))
+                guards.setdefault(id(r), [r, 0])
+    for r in reads:
+        key = "T-LINE-COUNT:read:%s" % ("guarded" if id(r) in guarded_reads else "unguarded")
+        res.inst(key, True, {"read": expr_text(r)[:60]})
+        if id(r) not in guarded_reads:
+            res.fail(key, facts.where(fn, r), "process() reads a line with `%s` outside a `read_line(..)? > 0` condition: whether a line was read is not what decides the counting" % expr_text(r)[:60])
+    n_inc = 0
+    for n, env, doms in sc:
+        if n.get("k") == "assignop" and n["op"] == "+" and simple_name(n["l"]) == "line":
+            n_inc += 1
+            inner = None
+            for d in doms:
+                if d[0] == "cond" and d[2]:
+                    r = read_guard(d[1])
+                    if r is not None:
+                        inner = r
+            key = "T-LINE-COUNT:increment#%d" % n_inc
+            res.inst(key, True, {"guarded_by": expr_text(inner)[:60] if inner else None})
+            if inner is None:
+                res.fail(key, facts.where(fn, n), "process() increments `line` where no successful read guards it")
+            else:
+                guards[id(inner)][1] += 1
+    for rid, (r, cnt) in guards.items():
+        key = "T-LINE-COUNT:per-read:%s" % expr_text(r)[:40]
+        res.inst(key, True, {"increments": cnt})
+        if cnt != 1:
+            res.fail(key, facts.where(fn, r), "the region guarded by the successful read `%s` increments `line` %d times (expected once): the counter %s the physical lines" % (expr_text(r)[:50], cnt, "runs ahead of" if cnt > 1 else "falls behind"))
+
+
+# ----------------------------------------------------------------------------- splices come first
+
+
+@rule("T-SPLICE-FIRST", floor=1,
+      text="backslash-newline splicing is the first thing done to a physical line and depends on nothing but the text of that line: the test that "
+           "recognises a trailing backslash-newline in process(), and every condition enclosing it inside the read loop, mentions only the line "
+           "buffer - not the comment state, the conditional-compilation state or the macro table.  (The state variables describe the *start* of the "
+           "line; the splice sits at its end, where a comment may have closed or a directive may have been recognised.)")
+def t_splice_first(facts, res, tier):
+    fn = None
+    for f in facts.fns:
+        if f["name"] == "process" and f["file"].endswith("/cpp.rs"):
+            fn = f
+    if fn is None:
+        raise AnchorMissing("cpp.rs: process() not found")
+    n_sites = 0
+    for n, env, doms in scoped(fn):
+        if n.get("k") not in ("if", "while"):
+            continue
+        c = n["cond"]
+        tests = [x for x in walk(c) if x.get("k") == "mcall" and x["method"] == "ends_with" and x.get("args") and x["args"][0].get("k") == "lit" and str(x["args"][0].get("v", "")).startswith("\\") and "\n" in str(x["args"][0]["v"])]
+        if not tests:
+            continue
+        bufs = {simple_name(t["recv"]) for t in tests}
+        n_sites += 1
+        key = "T-SPLICE-FIRST:test#%d" % n_sites
+        names = set()
+        for x in walk(c):
+            if x.get("k") == "path" and len(x["segs"]) == 1:
+                names.add(x["segs"][0])
+            if x.get("k") == "field":
+                names.add(_norm(x))
+        conds = []
+        for d in doms:
+            if d[0] == "cond" and not any(y.get("k") == "mcall" and y["method"] == "read_line" for y in walk(d[1])):
+                conds.append(d[1])
+                for x in walk(d[1]):
+                    if x.get("k") == "path" and len(x["segs"]) == 1:
+                        names.add(x["segs"][0])
+            if d[0] == "arm":
+                for x in walk(d[1]):
+                    if x.get("k") == "path" and len(x["segs"]) == 1:
+                        names.add(x["segs"][0])
+        extra = sorted(x for x in names - bufs if x not in ("true", "false"))
+        res.inst(key, True, {"buffer": sorted(b for b in bufs if b), "also_mentions": extra})
+        if extra:
+            res.fail(key, facts.where(fn, n), "the splice test of process() also depends on %s: a backslash-newline is then kept or removed according to state that describes the start of the line (e.g. code after the `*/` that closes a comment keeps its trailing backslash, so a multi-line #define there is cut after its first line)" % ", ".join("`%s`" % e for e in extra))
+    if n_sites == 0:
+        raise AnchorMissing("process(): no test of a trailing backslash-newline found")
+
+
+# ----------------------------------------------------------------------------- literals are stored byte by byte
+
+
+@rule("T-LITERAL-BYTES", floor=4,
+      text="wherever the decoded text of a string literal is turned into table entries (VariableValue::Int(x as i32) for each x of the text) the text "
+           "is walked byte by byte (as_bytes / bytes / into_bytes), never character by character: a non-ASCII character is several bytes, and every "
+           "sibling site must store the same bytes")
+def t_literal_bytes(facts, res, tier):
+    n_sites = 0
+    for fn in facts.fns:
+        if not fn["file"].endswith("/compile.rs"):
+            continue
+        for n, env, doms in scoped(fn):
+            if not (n.get("k") == "call" and _norm(n["func"]) == "VariableValue::Int" and n.get("args")):
+                continue
+            a = n["args"][0]
+            if not (isinstance(a, dict) and a.get("k") == "cast"):
+                continue
+            nm = simple_name(a["e"])
+            b = env.get(nm) if nm else None
+            if b is not None and b.src == "let" and b.init is not None:
+                # `let d = <some recoding of c>;`: the element is the loop variable the recoding reads
+                for x in walk(b.init):
+                    if x.get("k") == "path" and len(x["segs"]) == 1:
+                        bb = env.get(x["segs"][0])
+                        if bb is not None and bb.src in ("for", "closure"):
+                            b = bb
+                            break
+            if b is None or b.src not in ("for", "closure"):
+                continue
+            # what is iterated?
+            it = None
+            if b.src == "for":
+                it = b.scrut
+            else:
+                # closure parameter: the receiver chain of the adaptor the closure was given to
+                for n2, env2, doms2 in scoped(fn):
+                    if n2.get("k") == "mcall" and n2.get("args") and any(x is n for a2 in n2["args"] if isinstance(a2, dict) and a2.get("k") == "closure" for x in walk(a2)):
+                        it = n2["recv"]
+            if it is None:
+                continue
+            # resolve a local that holds the iterated thing
+            chain = _norm(it)
+            root = it
+            while isinstance(root, dict) and root.get("k") in ("mcall", "ref", "unary"):
+                root = root.get("recv") or root.get("e")
+            rn = simple_name(root) if isinstance(root, dict) else None
+            rb = env.get(rn) if rn else None
+            if rb is not None and rb.src == "let" and rb.init is not None:
+                chain = _norm(rb.init) + " -> " + chain
+            n_sites += 1
+            key = "T-LITERAL-BYTES:%s#%d" % (fn["name"], n_sites)
+            by_bytes = bool(re.search(r"\.(as_bytes|bytes|into_bytes)\(\)", chain))
+            by_chars = bool(re.search(r"\.(chars|char_indices)\(\)", chain))
+            res.inst(key, True, {"function": fn["name"], "walks": chain[:100], "by_bytes": by_bytes})
+            if by_chars or not by_bytes:
+                res.fail("T-LITERAL-BYTES:%s:%s" % (fn["name"], "chars" if by_chars else "unknown"), facts.where(fn, n),
+                         "%s stores a literal's text through `%s`: %s, so a non-ASCII character is stored as one entry holding its code point instead of its UTF-8 bytes (and the sibling sites store bytes)" % (fn["name"], chain[:100], "it walks characters" if by_chars else "the walk is not over bytes"))
+
+
+# ----------------------------------------------------------------------------- what a definition says is what is recorded
+
+
+@rule("T-FUNC-RECORD", floor=6,
+      text="compile_func_decl records, for a definition and for a prototype alike, every attribute it collected from the declaration (the locals named "
+           "like fields of struct Function: inline, bank, interrupt, return_signed, return_type, parameters, ..): each Function literal takes each of "
+           "them from the local of that name, and an entry completed in place (get_mut + assignments) has each of them assigned.  The set of functions "
+           "in use is seeded from `interrupt`, inlining from `inline`, bank calls from `bank`: an attribute dropped on one path changes them silently")
+def t_func_record(facts, res, tier):
+    fn = facts.fn("compile_func_decl", "CompilerState")
+    st = facts.structs.get("Function")
+    if not st:
+        raise AnchorMissing("struct Function not found")
+    fields = [f["name"] for f in st["fields"]]
+    locals_ = set()
+    for n in fn["body"].get("stmts", []):
+        # the attributes are collected in locals declared at the top of the function, before the walk over the declaration
+        if n.get("k") == "let":
+            locals_ |= _pat_idents(n.get("pat"))
+    attrs = [f for f in fields if f in locals_]
+    res.inst("T-FUNC-RECORD:attributes", True, {"collected": attrs})
+    if len(attrs) < 4:
+        raise AnchorMissing("compile_func_decl collects fewer than four of Function's fields in locals of the same name: %s" % attrs)
+    n_lit = 0
+    for n in walk(fn["body"]):
+        if n.get("k") == "struct" and n["segs"][-1] == "Function":
+            n_lit += 1
+            got = {f.get("name"): f.get("e") for f in n.get("fields", [])}
+            for a in attrs:
+                key = "T-FUNC-RECORD:literal#%d:%s" % (n_lit, a)
+                e = got.get(a)
+                val = simple_name(e) if isinstance(e, dict) else (a if e is None or e is True else None)
+                res.inst(key, True, {"field": a, "value": expr_text(e)[:40] if isinstance(e, dict) else a})
+                if val != a:
+                    res.fail("T-FUNC-RECORD:literal:%s" % a, facts.where(fn, n), "compile_func_decl builds a Function whose `%s` is `%s`, not the `%s` collected from this declaration" % (a, expr_text(e)[:40] if isinstance(e, dict) else e, a))
+    # in-place completion
+    n_patch = 0
+    for n, env, doms in scoped(fn):
+        if n.get("k") in ("if", "match"):
+            scrut = n["cond"] if n["k"] == "if" else n["e"]
+            t = _norm(scrut)
+            if "functions.get_mut(" in t or "functions.entry(" in t:
+                body = n.get("then") if n["k"] == "if" else n
+                assigned = {}
+                var = None
+                for x in walk(body):
+                    if x.get("k") == "assign" and x["l"].get("k") == "field" and x["l"]["name"] in fields:
+                        assigned[x["l"]["name"]] = simple_name(x["r"])
+                if not assigned:
+                    continue
+                n_patch += 1
+                for a in attrs:
+                    key = "T-FUNC-RECORD:completed#%d:%s" % (n_patch, a)
+                    res.inst(key, True, {"field": a, "assigned_from": assigned.get(a)})
+                    if assigned.get(a) != a:
+                        res.fail("T-FUNC-RECORD:completed:%s" % a, facts.where(fn, n), "compile_func_decl completes an existing Function entry in place but %s `%s`: what the earlier declaration (a prototype) said about it silently wins over this declaration" % ("does not assign" if a not in assigned else "assigns something else to", a))
+    if n_lit == 0 and n_patch == 0:
+        raise AnchorMissing("compile_func_decl neither builds a Function literal nor completes one")
+
+
+# ----------------------------------------------------------------------------- the zero-page predicate
+
+
+# VariableType variants whose `Value(Int(a))` definition is an address (the variable *is* that
+# location: `char *const p = 0x80;`, `const short t[4] = 0x1800;`, `const char *t[2] = 0xf0;`).
+# For Char and Short the same definition is a plain value, never an operand address.
+VALUE_NOT_ADDRESS = {"Char", "Short"}
+
+
+@rule("T-ZP-PRED", floor=5,
+      text="the predicate asm() sizes operands with (in_zeropage) says 'zero page' exactly when the operand's address is below $100: never for a "
+           "variable outside the zero-page memory class; for a variable whose definition is a constant address (every VariableType but Char and "
+           "Short, whose constant is a value) only when address + offset <= $ff; otherwise yes.  Decided per VariableType variant over the "
+           "predicate's paths: a type left out of the address test is sized 2 bytes where the assembler emits 3")
+def t_zp_pred(facts, res, tier):
+    from genmodel import fn_paths
+    from walker import Const
+    fns = [x for x in facts.fns if x["name"] == "in_zeropage"]
+    if not fns:
+        raise AnchorMissing("in_zeropage() not found")
+    fn = fns[0]
+    vparam = [p["name"] for p in fn["params"] if "Variable" in (p.get("ty") or "")]
+    oparam = [p["name"] for p in fn["params"] if (p.get("ty") or "").strip() in ("i32", "i64", "isize")]
+    if not vparam or not oparam:
+        raise AnchorMissing("in_zeropage(): expected a &Variable and an integer offset parameter")
+    v, off = vparam[0], oparam[0]
+    types = facts.enum_variants("VariableType")
+    mems = facts.enum_variants("VariableMemory")
+    paths = list(fn_paths(facts, fn))
+
+    def dom(st, key, universe):
+        allowed, excl = st.cons.get(key, (None, frozenset()))
+        s = set(allowed) if allowed is not None else set(universe)
+        return s - set(excl)
+
+    for t in types:
+        for addressed in (True, False):
+            # the case: memory Zeropage, type t, definition = constant address (or not)
+            key = "T-ZP-PRED:%s:%s" % (t, "constant-address" if addressed else "allocated")
+            outcomes = []
+            for kind, value, st in paths:
+                if "Zeropage" not in dom(st, v + ".memory", mems):
+                    continue
+                if t not in dom(st, v + ".var_type", types):
+                    continue
+                d = dom(st, v + ".def", facts.enum_variants("VariableDefinition"))
+                d0 = dom(st, v + ".def.0", facts.enum_variants("VariableValue"))
+                c = dom(st, v + ".var_const", [True, False])
+                is_addr_path = "Value" in d and "Int" in d0 and True in c
+                only_addr_path = d == {"Value"} and d0 == {"Int"} and c == {True}
+                if addressed and not is_addr_path:
+                    continue
+                if not addressed and only_addr_path:
+                    continue
+                if isinstance(value, Const):
+                    outcomes.append(("const", value.v))
+                else:
+                    txt = re.sub(r"\s+", "", repr(value))
+                    outcomes.append(("test", txt))
+            want_test = addressed and t not in VALUE_NOT_ADDRESS
+            res.inst(key, True, {"type": t, "case": "constant address" if addressed else "allocated by the linker", "outcomes": [o[1] if o[0] == "test" else o[1] for o in outcomes][:4], "expected": "address + offset <= $ff" if want_test else True})
+            if not outcomes:
+                res.fail(key, facts.where(fn), "in_zeropage(): no path covers a %s variable (%s)" % (t, "constant address" if addressed else "allocated"))
+                continue
+            if want_test:
+                bad = [o for o in outcomes if o[0] == "const"]
+                if bad:
+                    res.fail(key, facts.where(fn), "in_zeropage() answers %s for a zero-page %s at a constant address without looking at address + offset: `%s+k` past $ff is sized as a 2-byte zero-page operand where the assembler emits 3 bytes" % (bad[0][1], t, t))
+                for o in outcomes:
+                    if o[0] == "test" and not (off in re.findall(r"\w+", o[1]) and re.search(r"<=255|<256|<=0xff|<0x100", o[1])):
+                        res.fail(key + ":test", facts.where(fn), "in_zeropage(): the test for %s is `%s`, expected address + %s <= $ff" % (t, o[1][:80], off))
+            else:
+                bad = [o for o in outcomes if not (o[0] == "const" and o[1] is True)]
+                if bad:
+                    res.fail(key, facts.where(fn), "in_zeropage() does not answer true for a zero-page %s (%s): %s" % (t, "its constant is a value, not an address" if addressed else "no constant address", bad[0][1]))
+    # outside the zero-page class: false
+    key = "T-ZP-PRED:other-memory"
+    outs = []
+    for kind, value, st in paths:
+        m = dom(st, v + ".memory", mems)
+        if m - {"Zeropage"}:
+            outs.append((sorted(m - {"Zeropage"}), value))
+    res.inst(key, True, {"classes": sorted({x for o in outs for x in o[0]})})
+    for m, value in outs:
+        if not (isinstance(value, Const) and value.v is False):
+            res.fail(key, facts.where(fn), "in_zeropage() does not answer false for memory classes %s" % m)
+
+
+# ----------------------------------------------------------------------------- hand-made high-byte addresses
+
+
+@rule("T-HIBYTE-OFFSET", floor=3,
+      text="where the generator forms the address of the high byte of a 16-bit object by hand (an ExprType::Absolute marked as an 8-bit access whose "
+           "offset is the operand's offset plus something), the something is what asm() adds for `high_byte`: the variable's size for the split "
+           "arrays (ShortPtr, CharPtrPtr: low bytes first, then high bytes), 1 or the size (1) for a scalar short.  Decided per variable type "
+           "over the paths of each such function; indexing by a constant must reach the same byte as indexing by a register")
+def t_hibyte_offset(facts, res, tier):
+    from genmodel import fn_paths, gen_fns
+    from walker import EnumV, Const, Sym
+    types = facts.enum_variants("VariableType")
+    n = 0
+    for fn in gen_fns(facts):
+        has = False
+        for x in walk(fn["body"]):
+            if x.get("k") == "call" and expr_text(x["func"]) == "ExprType::Absolute" and len(x.get("args", [])) == 3 and _norm(x["args"][1]) == "true":
+                e = strip(x["args"][2])
+                if isinstance(e, dict) and e.get("k") in ("binary", "mcall") and _int_lit(e) is None:
+                    has = True
+        if not has:
+            continue
+        for kind, value, st in fn_paths(facts, fn):
+            if not (isinstance(value, EnumV) and value.variant == "Ok" and value.payload and isinstance(value.payload[0], EnumV) and value.payload[0].variant == "Absolute"):
+                continue
+            p = value.payload[0].payload
+            if len(p) != 3 or not (isinstance(p[1], Const) and p[1].v is True):
+                continue
+            off = p[2]
+            txt = re.sub(r"\s+", "", repr(off))
+            if not (txt.startswith("(") and "+" in txt):
+                continue
+            vt = None
+            for k2, (allowed, excl) in st.cons.items():
+                if k2.endswith(".var_type"):
+                    vt = (set(allowed) if allowed is not None else set(types)) - set(excl)
+            vt = vt or set(types)
+            for t in sorted(vt):
+                key = "T-HIBYTE-OFFSET:%s:%s" % (fn["name"], t)
+                n += 1
+                uses_size = ".size" in txt
+                one = bool(re.search(r"\+Const\(1\)|\+1\)", txt))
+                res.inst(key, True, {"function": fn["name"], "type": t, "offset": txt[:90]})
+                if t in ("ShortPtr", "CharPtrPtr") and not uses_size:
+                    res.fail(key, facts.where(fn), "%s addresses the high byte of a %s element as offset `%s`: the high bytes of a split array start `size` bytes after the low bytes, so element k's high byte is at k + size (asm() adds v.size; a register index reaches that byte, this constant index does not)" % (fn["name"], t, txt[:80]))
+                elif t == "Short" and not (uses_size or one):
+                    res.fail(key, facts.where(fn), "%s addresses the high byte of a short as offset `%s` (expected +1)" % (fn["name"], txt[:80]))
+    if n == 0:
+        raise AnchorMissing("no hand-made high-byte address (ExprType::Absolute(_, true, offset + ..)) found in the generator")
+
+
+# ----------------------------------------------------------------------------- pair rules that delete a load
+
+
+@rule("T-OPT-PAIR-FLAGS", floor=1,
+      text="a peephole rule of optimize() that deletes a load (the second instruction of a pair is LDA / LDX / LDY and remove_second or remove_both is "
+           "set) also requires the optimiser's flag knowledge to be that register's (`flags == FlagsState::A|X|Y`): the register may well hold the "
+           "value already (STA v; LDA v), but the load also sets N/Z, and the flags may have been changed since the register was written "
+           "(`load(a); X = 3; store(v); if (v)` would branch on X)")
+def t_opt_pair_flags(facts, res, tier):
+    fn = facts.fn("optimize", "AssemblyCode")
+    n = 0
+    for node, env, doms in scoped(fn):
+        if node.get("k") != "if":
+            continue
+        sets = [x for x in walk(node["then"]) if x.get("k") == "assign" and simple_name(x["l"]) in ("remove_second", "remove_both") and _norm(x["r"]) != "false"]
+        if not sets:
+            continue
+        c = _norm(node["cond"])
+        m = re.search(r"(\w+)\.mnemonic==AsmMnemonic::(LDA|LDX|LDY)", c)
+        if not m:
+            continue
+        # which instruction of the pair is it?  the second one is what remove_second deletes
+        inst = m.group(1)
+        b = env.get(inst)
+        second = b is not None and b.scrut is not None and "second" in _norm(b.scrut)
+        both = any(simple_name(x["l"]) == "remove_both" for x in sets)
+        if not (second or both):
+            continue
+        reg = m.group(2)[-1]
+        n += 1
+        m1 = re.search(r"(\w+)\.mnemonic==AsmMnemonic::(\w+)", c.replace(m.group(0), "", 1))
+        key = "T-OPT-PAIR-FLAGS:%s+%s" % (m1.group(2) if m1 else "?", m.group(2))
+        guarded = ("flags==FlagsState::%s" % reg) in c or any(d[0] == "cond" and d[2] and ("flags==FlagsState::%s" % reg) in _norm(d[1]) for d in doms)
+        res.inst(key, True, {"pair": key.split(":")[1], "condition": c[:160], "consults_flags": guarded})
+        if not guarded:
+            res.fail(key, facts.where(fn, node), "optimize() deletes the %s of the pair %s without requiring `flags == FlagsState::%s`: the value is there, but the N/Z flags the deleted load would have set may be those of another register by now, and the next branch tests them" % (m.group(2), key.split(":")[1], reg))
+    if n == 0:
+        raise AnchorMissing("optimize(): no pair rule deleting a load found")
